@@ -9,7 +9,7 @@ use crate::{
     app::ReadMode,
     explore::{self, deadline, e2, e3, fates_of, guarded, Devs, RunOut, FATE_ALTS},
     report::{Args, Report, Violation},
-    scen::{self, cfg_list, completion, diagnose, integrity, std_pair, workload_done, Wl},
+    scen::{self, cfg_list, completion, diagnose, integrity, std_pair_pre, workload_done, Wl},
     sim::PairCfg,
 };
 
@@ -32,10 +32,11 @@ pub struct Out {
 
 pub fn run_one(base: Instant, cfg: &PairCfg, wl: Wl, k: u32, mask: u64, fates: &std::collections::BTreeMap<u64, crate::sim::Fate>) -> Out {
     let r = guarded(|| {
-        let mut p = std_pair(base, cfg, wl, ReadMode::default());
-        p.w.drop_mask = mask;
-        p.w.fates = fates.clone();
-        p.w.keep_data = false;
+        let mut p = std_pair_pre(base, cfg, wl, ReadMode::default(), |w| {
+            w.drop_mask = mask;
+            w.fates = fates.clone();
+            w.keep_data = false;
+        });
         let hz = horizon(k);
         loop {
             if p.w.steps % 4 == 0 && workload_done(&p) {
@@ -86,13 +87,17 @@ fn replay(args: &Args, path: &std::path::Path) -> ! {
     let cfg = cfgs.iter().find(|c| c.client.name == r["cfg"].as_str().unwrap_or("")).unwrap_or_else(|| crate::report::machinery("unknown cfg"));
     let wl = match r["wl"].as_str().unwrap_or("") { "W1" => Wl::W1, "W2" => Wl::W2, "W3" => Wl::W3, "W6" => Wl::W6, _ => Wl::W1 };
     let base = Instant::now();
-    let mut p = std_pair(base, cfg, wl, ReadMode::default());
     let k = r["k"].as_u64().unwrap_or(4) as u32;
-    p.w.drop_mask = r["mask"].as_u64().unwrap_or(0);
+    let mask = r["mask"].as_u64().unwrap_or(0);
+    let mut fates = Default::default();
     if let Some(d) = r["devs"].as_array() {
         let devs: Devs = d.iter().map(|x| (x[0].as_u64().unwrap(), x[1].as_u64().unwrap() as u16)).collect();
-        p.w.fates = fates_of(&devs, &FATE_ALTS);
+        fates = fates_of(&devs, &FATE_ALTS);
     }
+    let mut p = std_pair_pre(base, cfg, wl, ReadMode::default(), |w| {
+        w.drop_mask = mask;
+        w.fates = fates;
+    });
     let hz = horizon(k);
     loop {
         if workload_done(&p) || p.w.steps >= 60_000 { break; }
